@@ -50,9 +50,14 @@ type URI struct {
 
 var Hosts = []string{"", "127.0.0.1", "[::1]", "127.0.0.1.evil.test", "127.0.0.2", "localhost", "x.localhost", "localhost.evil.test"}
 
+// AltLoopbacks: other spellings of the loopback addresses of Hosts[1] and Hosts[2] (IPv4-mapped IPv6,
+// uncompressed IPv6): the same address, a different host string.
+var AltLoopbacks = []string{"[::ffff:127.0.0.1]", "[0:0:0:0:0:0:0:1]"}
+
 type Opt struct {
 	SchemeKinds  int  // 1: symbolic lower-case; 2: + "HTTP"; 3: + scheme-relative "//host/path"
 	HostKinds    int  // prefix of Hosts (0 = symbolic hostname)
+	AltHosts     int  // prefix of AltLoopbacks offered in addition to the HostKinds choices
 	HostLen      int  // bound of the symbolic hostname
 	KvQuery      bool // query is absent or "a=" value (so that Query() is decidable), chosen by fork
 	HasQuery     int  // with kvQuery: 0 = fork, 1 = no query, 2 = with query
@@ -75,16 +80,23 @@ func New(name string, o Opt) URI {
 	case 2:
 		u.Relative = true
 	}
-	hk := 0
-	if o.HostKinds > 1 {
-		hk = zz.Choice(name+".hostkind", o.HostKinds)
+	hk, nk := 0, o.HostKinds
+	if nk < 1 {
+		nk = 1
+	}
+	if nk+o.AltHosts > 1 {
+		hk = zz.Choice(name+".hostkind", nk+o.AltHosts)
 	}
 	lit := ""
 	if hk == 0 {
 		u.Hostname = zz.StringEx(name+".hostname", o.HostLen, ExHost)
 		lit = u.Hostname
 	} else {
-		lit = Hosts[hk]
+		if hk >= nk {
+			lit = AltLoopbacks[hk-nk]
+		} else {
+			lit = Hosts[hk]
+		}
 		u.Hostname = strings.TrimSuffix(strings.TrimPrefix(lit, "["), "]")
 	}
 	colon := zz.StringEx(name+".colon", 1, AllBut(":"))
